@@ -78,8 +78,14 @@ def cbool(b):
 
 
 def cint(k, lo, hi):
-    """The concrete int equal to symbolic k in lo..hi, decided by comparisons (forks)."""
-    for i in range(lo, hi + 1):
-        if k == i:
-            return i
-    return hi
+    """The concrete int equal to symbolic k in lo..hi, decided by comparisons (forks; bisection, so
+    about log2(hi-lo) solver decisions per path)."""
+    if k <= lo:
+        return lo
+    while lo < hi:
+        mid = (lo + hi) // 2
+        if k <= mid:
+            hi = mid
+        else:
+            lo = mid + 1
+    return lo
